@@ -49,7 +49,7 @@ const (
 type ccase struct {
 	Mode     string   `json:"mode"` // in+in | out+in (connection 1 is the outgoing one)
 	EBGP     bool     `json:"ebgp"`
-	IDs      string   `json:"ids"`   // lt | gt | eq-as-lt | eq-as-gt   (local vs remote)
+	IDs      string   `json:"ids"`   // lt | gt | eq-as-lt | eq-as-gt | eq-as4-lt  (local vs remote; as4: the remote AS needs 4 octets)
 	Order    []string `json:"order"` // C1 O1 K1 U1 C2 O2 K2 U2 interleaved
 	Unsynced bool     `json:"unsynced,omitempty"`
 }
@@ -67,6 +67,9 @@ func (c ccase) remoteID() uint32 {
 func (c ccase) remoteAS() uint32 {
 	if !c.EBGP {
 		return localAS
+	}
+	if c.IDs == "eq-as4-lt" {
+		return 4200000001 // on the wire the OPEN's My AS field is AS_TRANS (23456 < local AS); the capability carries the real one
 	}
 	if c.IDs == "eq-as-gt" || c.IDs == "gt" {
 		return localAS - 1 // local AS is the larger one
@@ -401,7 +404,7 @@ func main() {
 		return
 	}
 	vf.Main("C24", "exploration", func(r *vf.Run) {
-		r.Rule("one peer, two simultaneous connections (in+in: two incoming; out+in: the active FSM's outgoing connection fed through the connector hook + one incoming). All 70 interleavings of {CONNECT, OPEN, KEEPALIVE, UPDATE}×2 that keep each connection's order × identifier orderings {local<remote, local>remote} (iBGP, eBGP) and {equal with local AS < remote AS, equal with local AS > remote AS} (eBGP) × {in+in, out+in}; after every step both FSMs are synchronised and the monitors run. Thorough adds the same scenarios with both conversations injected without waiting (final state judged only). distinct_nontrivial = distinct (mode, session kind, identifier ordering, interleaving, final state of both connections)")
+		r.Rule("one peer, two simultaneous connections (in+in: two incoming; out+in: the active FSM's outgoing connection fed through the connector hook + one incoming). All 70 interleavings of {CONNECT, OPEN, KEEPALIVE, UPDATE}×2 that keep each connection's order × identifier orderings {local<remote, local>remote} (iBGP, eBGP) and {equal with local AS < remote AS, equal with local AS > remote AS, equal with a 4-octet remote AS (AS_TRANS in the OPEN) > local AS} (eBGP) × {in+in, out+in}; after every step both FSMs are synchronised and the monitors run. Thorough adds the same scenarios with both conversations injected without waiting (final state judged only). distinct_nontrivial = distinct (mode, session kind, identifier ordering, interleaving, final state of both connections)")
 		r.Assume("Established = hook state established AND bio-rd has not closed that FSM's connection (a ceased FSM never republishes its state)",
 			"when the second OPEN arrives while the other connection is already Established either survivor is accepted (RFC 4271 §6.8 closes the new one unless configured otherwise)",
 			"for two incoming connections the statement's rule does not distinguish them: only 'at most one' and the Cease NOTIFICATION are asserted")
@@ -418,6 +421,9 @@ func main() {
 					ids := []string{"lt", "gt"}
 					if ebgp {
 						ids = append(ids, "eq-as-lt", "eq-as-gt")
+						if mode == "out+in" {
+							ids = append(ids, "eq-as4-lt")
+						}
 					}
 					for _, id := range ids {
 						for _, il := range ils {
